@@ -690,7 +690,11 @@ func c16Run(c c16Case, r *vp.Rec) (err error) {
 			b = c16Frame(b, c16TypeHeaders, 0, id, c16Req(o.Path), 0)
 			frag := make([]byte, 0)
 			if o.V > 0 {
-				frag = c16Block("x-vp-pad", string(make([]byte, o.V)))
+				pad := bytes.Repeat([]byte{'a'}, int(o.V))
+				if o.V%2 == 1 {
+					pad = make([]byte, o.V) // NUL octets: an invalid field value
+				}
+				frag = c16Block("x-vp-pad", string(pad))
 			}
 			for i := 0; i < n; i++ {
 				b = c16Frame(b, c16TypeCont, 0, id, frag, 0)
